@@ -18,12 +18,14 @@ for fn in sorted(glob.glob(os.path.join(HERE, "checks", "registry_*.py"))):
     CHECKS.update(getattr(m, "CHECKS", {}))
     NOT_APPLICABLE.update(getattr(m, "NOT_APPLICABLE", {}))
 
+ready_file = os.path.join(HERE, "checks", "ready.txt")
+READY = set(open(ready_file).read().split()) if os.path.exists(ready_file) else set(CHECKS)
 props = [json.loads(l) for l in open(os.path.join(HERE, "properties.jsonl"))]
 checks = []
 na = []
 for p in props:
     pid = p["id"]
-    if pid in CHECKS:
+    if pid in CHECKS and pid in READY:
         r = CHECKS[pid]
         checks.append(dict(
             property_id=pid,
